@@ -436,6 +436,14 @@ class C20(Check):
                             discs.append(Disc("C20/callback-exception-not-propagated", f"got {got_text!r} / {exc!r}, expected CallbackBoom({raising}) for {text!r} | {where}"))
                             break
                         continue
+                    if exc is not None and k == 'batch':
+                        # replies to id-less elements carry the id configured on the patch (if any): two of them - or one that equals a call's
+                        # id - make the reply array one the library itself refuses (duplicate ids).  The statement says nothing about it.
+                        eff = [e_.get('id_alt') if e_['id'] is None else e_['id'] for e_ in expected]
+                        eff = [x for x in eff if x is not None]
+                        if isinstance(exc, pjrpc.exc.IdentityError) and any(type(a) is type(b) and a == b for i, a in enumerate(eff) for b in eff[i + 1:]):
+                            classes.add('batch/replies-share-a-patch-id-unjudged')
+                            continue
                     if exc is not None:
                         discs.append(Disc(f"C20/call-raised/{type(exc).__name__}", f"{exc!r} for {text!r} | {where}"))
                         break
